@@ -104,6 +104,7 @@ namespace Givaro {
     // base p logarithm of a
     int64_t logp(const Integer& a, const Integer& p)
     {
+        if (a < p) return 0;
         std::list< Integer > pows;
         Integer puiss = p, sq;
         do {
